@@ -170,7 +170,9 @@ def aabb_layout(rep, prog):
         inside_if = fi.enclosing(r, ("IfStmt",)) is not None
         if v.get("k") == "CXXBoolLiteralExpr" and bool(v.get("v")) == (not inside_if):
             continue
-        rep.violation("C06.aabb-layout", prog, chk, r, "aabb check returns the wrong truth value", "aabb_intersection_check must return false exactly when a coordinate is outside its [min,max] slot pair and true otherwise")
+        # not the 'if(outside) return false; ... return true;' idiom: decide the function as a Boolean function of the regions
+        _box_truth_table(rep, prog, chk, pos_p)
+        return
 
 
 def _box_truth_table(rep, prog, chk, pos_p):
